@@ -1,7 +1,7 @@
 (* Executable model of keyberon/src/layout.rs (Layout::event, Layout::tick, do_action and everything
    they call), without chords v2 (see ChordsV2.v).  Written to follow the Rust statement by
    statement; every ignored push result and every panic site is explicit.  No proofs here. *)
-From KV Require Export Keyberon.Setters Keyberon.Switch.
+From KV Require Export Keyberon.Setters Keyberon.Switch Keyberon.ChordsV2.
 
 (* ------------------------------------------------------------------ helpers on rows / states *)
 Fixpoint assoc_cell (y : N) (l : list (N * action)) : option action :=
@@ -456,7 +456,8 @@ Definition tick_wt (w : waiting) (q : list queued) (aq : list (coord * N * actio
 (* ------------------------------------------------------------------ do_action & friends *)
 Inductive call :=
 | CDoAction (a : action) (c : coord) (delay : N) (is_oneshot : bool) (ls : list N)
-| CEvent (press : bool) (c : coord).
+| CEvent (press : bool) (c : coord)
+| COverflow (ov : queued).     (* the overflow path of Layout::event alone (the chords-v2 queue overflowed) *)
 
 Definition TRIGGER_TAPHOLD_COORD : coord := (0, 0).
 
@@ -641,6 +642,16 @@ Section Body.
       Ok (l, CNone)
     end.
 
+  (* the `Some(overflow)` branch of Layout::event, for an element pushed out of the chords-v2 queue *)
+  Definition overflow_body (l : layout) (overflow : queued) : outcome (layout * cev) :=
+    l <- (fix go (n : nat) (idx : Z) (l : layout) : outcome layout :=
+            match n with
+            | O => Ok l
+            | S n' => '(l', _) <- waiting_into_hold l idx ;; go n' (idx + 1)%Z l'
+            end) (S EXTRA_WAITING_LEN) (-1)%Z l ;;
+    '(l, _) <- dequeue l overflow ;;
+    Ok (l, CNone).
+
   Definition set_rpt (a : action) (l : layout) : layout := set_rpt_action (Some a) l.
 
   (* the rpt_multikey_key_buffer dance shared by KeyCode and MultipleKeyCodes *)
@@ -797,6 +808,7 @@ Section Body.
     match k with
     | CDoAction a c d os ls => do_action_body l a c d os ls
     | CEvent p c => event_body l p c
+    | COverflow ov => overflow_body l ov
     end.
 End Body.
 
@@ -968,6 +980,41 @@ Section Tick.
     end.
 End Tick.
 
+(* ------------------------------------------------------------------ chords v2 in front of the layout *)
+(* Layout::event with chords_v2 configured: the event goes to the chord queue first *)
+Definition layout_event2 (cfg : lcfg) (l : layout) (press : bool) (c : coord) : outcome layout :=
+  match chords2 l with
+  | None => layout_event cfg l press c
+  | Some ch =>
+      let l := if press then set_hist_inputs (hist_push_front c (hist_inputs l)) l else l in
+      let '(q, ov) := wdeque_push_back QUEUE_SIZE {| q_press := press; q_coord := c; q_since := 0 |} (cv_queue ch) in
+      let l := set_chords2 (Some (set_cv_queue q ch)) l in
+      match ov with
+      | None => Ok l
+      | Some overflow => '(l', _) <- exec cfg FUEL l (COverflow overflow) ;; Ok l'
+      end
+  end.
+
+(* the first lines of Layout::tick: drain the chord machinery into the queue, queue a completed chord's action *)
+Definition chv2_pre (l : layout) : outcome layout :=
+  match chords2 l with
+  | None => Ok l
+  | Some ch =>
+      '(ch1, drained) <- tick_chv2 ch (current_layer l) ;;
+      let l := set_queue (wdeque_extend QUEUE_SIZE drained (queue l)) l in
+      let '(ch2, act) := get_action_chv2 ch1 in
+      let l := set_chords2 (Some ch2) l in
+      match act with
+      | Some qa =>
+          let o := oneshot l in
+          Ok (set_oneshot (set_os_pause_ticks (os_pause_delay o) o)
+                (set_action_queue (fst (wdeque_push_back ACTION_QUEUE_LEN qa (action_queue l))) l))
+      | None => Ok l
+      end
+  end.
+Definition layout_tick2 (cfg : lcfg) (l : layout) : outcome (layout * cev) :=
+  l' <- chv2_pre l ;; layout_tick cfg l'.
+
 Definition init_oneshot (pause_delay : N) : oneshot_state :=
   {| os_keys := []; os_released := []; os_other := []; os_timeout := 0; os_end_config := EndOnFirstPress;
      os_release_next := false; os_pause_delay := pause_delay; os_pause_ticks := 0; os_ignore_ticks := 0 |}.
@@ -975,4 +1022,4 @@ Definition init_oneshot (pause_delay : N) : oneshot_state :=
 Definition init_layout (pause_delay : N) : layout :=
   {| states := []; waiting_ := None; extra_waiting := []; tap_dance_eager := None; queue := [];
      oneshot := init_oneshot pause_delay; lpt_coord := (0, 0); lpt_timeout := 0; active_sequences := [];
-     action_queue := []; rpt_action := None; hist_keys := []; hist_inputs := []; default_layer := 0 |}.
+     action_queue := []; rpt_action := None; hist_keys := []; hist_inputs := []; default_layer := 0; chords2 := None |}.
